@@ -109,6 +109,13 @@ CLAIMED.update({
             "DESIGN.md §4 C07"),
 })
 
+CLAIMED.update({
+    "C19": ("field-coverage (which syntax fields the refactoring code reads, per entry point over the call graph incl. Apply methods of created edits, and per enumerating function) + sibling agreement of the expression walkers' type switches (thin claim)",
+            "Two mechanisms, not the behaviour: every place where a renamed or removed name can occur (call/modifier/return bindings, pipeline retains, top-level call) is visited by the refactoring that concerns it; every expression walker has an arm for each reference-bearing expression kind and recurses (or enumerates with FindRefs).",
+            "Thin: that the edited program compiles, call-graph equality and rename round-trips are not decided.",
+            "DESIGN.md §4 C19"),
+})
+
 NOT_APPLICABLE = {
     "C01": "Equality of delivered argument values with the denotation of binding expressions quantifies over run-time JSON values and fork matching for all programs; no clause is a fact about the shape of the code, so any static rule would be a proxy, not a necessary condition.",
     "C13": "Materialisation of files under outs/ and the rewritten _outs are file-system effects and hand-assembled JSON values; the only structural candidate (bracket pairing of the JSON writers) does not imply validity and is exercised by the existing golden tests.",
